@@ -159,7 +159,7 @@ known("F12", ["C02", "C18"],
       "reads a SeqCst store older than the newest executed one): an RC11-consistent outcome whose SeqCst order runs against po U rf is "
       "never explored, e.g. x2.store(1,sc);fence(sc);x0.store(1,rlx) || x0.load(rlx)=1;x1.store(1,rlx) || x1.load(rlx)=1;fence(sc);"
       "x2.load(sc)=0 (src/rt/thread.rs seq_cst_fence, src/rt/atomic.rs match_load_to_stores)",
-      ["missing_outcome_fence_order"], "label:sc_fence_order",
+      ["missing_outcome_fence_order"], "label:operational_order",
       case("C02", "known", JOIN3 + "ld(x0,rlx); ld(x1,rlx); ld(x2,rlx) || t1: st(x2,1,sc); fence(sc); st(x0,1,rlx) || "
            "t2: ld(x0,rlx); st(x1,1,rlx) || t3: ld(x1,rlx); fence(sc); ld(x2,sc)"))
 
@@ -215,7 +215,7 @@ known("F7c", ["C02", "C18"],
       "a failing compare_exchange is only a load and may read any coherent value, but loom lets every read-modify-write read the "
       "newest store only: t1: x0.fetch_add(1,rlx); x1.store(1,rlx) || t2: a=x1.load(rlx); x0.compare_exchange(5,6) never yields "
       "a=1 together with Err(0) (src/rt/atomic.rs match_rmw_to_stores)",
-      ["missing_outcome"], "cas_other_writer",
+      ["missing_outcome_cas_order"], "label:operational_order",
       case("C02", "known", JOIN2 + "ld(x0,rlx); ld(x1,rlx) || t1: fadd(x0,1,rlx); st(x1,1,rlx) || t2: ld(x1,rlx); cas(x0,5,6,rlx,rlx)"))
 
 if __name__ == "__main__":
